@@ -23,9 +23,28 @@
     only by the measured inequality of the correspondence; the shape (what depends on a length or
     count FIELD and what on bytes actually read) is the point of the model.
 
-    Not in this model: there is no [make] whose size is a decoded length or count; a regression to
-    [make([]byte, l)] / [make([]*Tx, n)] is a different shape and shows up in the correspondence
-    (measured allocation above [alloc_bound]; process abort) rather than in a theorem. *)
+    Partial operations.  The result type has a fourth outcome, [APanic]: every operation of the Go
+    decoders that the runtime can refuse is a function here that answers [APanic] when it would:
+      - an allocation request ([make], [new], [append] growth, escaping literal) of [alloc_limit] = 2^47
+        bytes or more ([a_request]; the runtime's limit, maxAlloc, is 2^48 on linux/amd64 - the model
+        panics earlier, and every amount it checks is an upper estimate of what the runtime is asked for).
+        [acharge] - the counter - contains the check, so that nothing is counted without being checked;
+      - [make([]byte, v)] with [v] a uint64: makeslice64 converts to int first and panics when the
+        int is negative, v >= 2^63 ([a_int_of_u64]);
+      - a slice expression [b[lo:hi]] on a slice of capacity [cap] ([a_slice]: lo <= hi <= cap);
+      - an index expression [b[i]] ([a_index]: i < len), including the [_ = b[7]] / [b[3]] / [b[1]] that
+        binary.LittleEndian.Uint64 / Uint32 / Uint16 start with;
+      - [xs = append(xs, x)] on a slice of pointers that has [done] elements ([slice_grow done] bytes).
+    They stand where the Go code has them; where the Go code guards first ([l <= readChunkSize],
+    [chunk = min(l - have, have + 4096)], the loop guard [len(b) < l]) the model guards first.
+    proofs/AllocProofs.v section 5 proves that no entry point answers [APanic] on an input shorter
+    than [input_limit] = 2^42 bytes, whatever its length and count fields say.  (On longer inputs the
+    model does panic: a script that is really there and is 2^45 bytes long makes the chunk loop of
+    readBytes ask for more than [alloc_limit].)
+
+    Not modelled as partial: int64(n), int(bytesRead), uint64(len(b)) (conversions of non-negative
+    values between 64-bit types), [bytesRead += n] (wraps, does not panic), the loop of ReverseBytes
+    (its indices are i < j <= len-1 by its own guard), io.ReadFull and bytes.Reader (library). *)
 From Coq Require Import List NArith Lia.
 From Coq Require Import Strings.Byte.
 From GoBT Require Import lib.Bytes lib.Parse lib.VarInt model.Tx.
@@ -35,8 +54,9 @@ Local Open Scope N_scope.
 Inductive ares (A : Type) :=
 | AOk (a : A) (n : N) (rest : bytes) (al : N)   (* value, bytes consumed, remaining input, bytes allocated *)
 | AErr (n : N) (al : N)                          (* error after consuming n bytes, having allocated al *)
-| AFuel.
-Arguments AOk {A}. Arguments AErr {A}. Arguments AFuel {A}.
+| AFuel
+| APanic.                                        (* a run-time panic: the process is gone *)
+Arguments AOk {A}. Arguments AErr {A}. Arguments AFuel {A}. Arguments APanic {A}.
 
 Definition aparser A := bytes -> ares A.
 
@@ -47,24 +67,50 @@ Definition abind {A B} (p : ares A) (f : A -> bytes -> ares B) : ares B :=
       | AOk b m r al2 => AOk b (n + m) r (al + al2)
       | AErr m al2 => AErr (n + m) (al + al2)
       | AFuel => AFuel
+      | APanic => APanic
       end
   | AErr n al => AErr n al
   | AFuel => AFuel
+  | APanic => APanic
   end.
 Definition aret {A} (a : A) : aparser A := fun bs => AOk a 0 bs 0.
 
-(** an allocation that consumes no input *)
+(** ** the partial operations *)
+Definition alloc_limit : N := 2 ^ 47.
+Definition two63 : N := 2 ^ 63.
+
+(** mallocgc / makeslice / growslice asked for [size] bytes, then [r] *)
+Definition a_request {A} (size : N) (r : ares A) : ares A :=
+  if alloc_limit <=? size then APanic else r.
+
+(** int(v) for a uint64 [v] that is about to be a length: negative is a panic *)
+Definition a_int_of_u64 {A} (v : N) (r : ares A) : ares A :=
+  if two63 <=? v then APanic else r.
+
+(** b[lo:hi] with cap(b) = cap *)
+Definition a_slice {A} (lo hi cap : N) (r : ares A) : ares A :=
+  if andb (lo <=? hi) (hi <=? cap) then r else APanic.
+
+(** b[i] with len(b) = len *)
+Definition a_index {A} (i len : N) (r : ares A) : ares A :=
+  if i <? len then r else APanic.
+
+(** an allocation of (at most) x bytes that consumes no input, then [r] *)
 Definition acharge {A} (x : N) (r : ares A) : ares A :=
+  a_request x
   match r with
   | AOk a n rest al => AOk a n rest (x + al)
   | AErr n al => AErr n (x + al)
   | AFuel => AFuel
+  | APanic => APanic
   end.
 
+(** forgetting the counter; a panic has no counterpart in model/Tx.v (the value given to it is arbitrary:
+    the erasure theorems are stated for results that are not [APanic]) *)
 Definition erase {A} (r : ares A) : pres A :=
-  match r with AOk a n rest _ => POk a n rest | AErr n _ => PErr n | AFuel => PFuel end.
+  match r with AOk a n rest _ => POk a n rest | AErr n _ => PErr n | AFuel => PFuel | APanic => PFuel end.
 Definition alloc_of {A} (r : ares A) : N :=
-  match r with AOk _ _ _ al => al | AErr _ al => al | AFuel => 0 end.
+  match r with AOk _ _ _ al => al | AErr _ al => al | AFuel => 0 | APanic => 0 end.
 
 Notation "'alet' x ':=' p 'on' bs 'as' r 'in' k" :=
   (abind (p bs) (fun x r => k)) (at level 200, x pattern, bs at level 0, r name, k at level 200).
@@ -80,6 +126,9 @@ Definition script_hdr : N := 32.        (* s := Script(b); &s  (24 bytes) *)
 Definition append_cost : N := 64.       (* amortised growth of a []*T per appended pointer *)
 Definition chunk_size : N := 4096.      (* readChunkSize *)
 Definition grow_cost (have chunk : N) : N := 2 * (have + chunk).
+(** xs = append(xs, x) on a []*T with [done] elements: growslice doubles below 256 elements, then asks for
+    1.25 * done + 192 elements, rounded up to a size class or (above 32 KiB) to a page of 8 KiB *)
+Definition slice_grow (done : N) : N := 16 * done + 16384.
 
 (** ** primitives *)
 
@@ -91,19 +140,26 @@ Definition a_read_full (k : nat) : aparser bytes := fun bs =>
 (** buf := make([]byte, k); io.ReadFull(r, buf) *)
 Definition a_read_exact (k : nat) : aparser bytes := fun bs => acharge (msize (N.of_nat k)) (a_read_full k bs).
 
-(** VarInt.ReadFrom *)
+(** VarInt.ReadFrom: switch b[0]; binary.LittleEndian.UintNN(bb) *)
 Definition a_read_varint : aparser (N * bool) := fun bs =>
   alet b := a_read_exact 1 on bs as r in
-    let t := match b with c :: _ => b2n c | [] => 0 end in
-    if t =? 255 then alet x := a_read_exact 8 on r as r2 in aret (le_dec x, two32 <=? le_dec x) r2
-    else if t =? 254 then alet x := a_read_exact 4 on r as r2 in aret (le_dec x, two16 <=? le_dec x) r2
-    else if t =? 253 then alet x := a_read_exact 2 on r as r2 in aret (le_dec x, 253 <=? le_dec x) r2
-    else aret (t, true) r.
+    a_index 0 (lenN b)
+    (let t := match b with c :: _ => b2n c | [] => 0 end in
+    if t =? 255 then alet x := a_read_exact 8 on r as r2 in a_index 7 (lenN x) (aret (le_dec x, two32 <=? le_dec x) r2)
+    else if t =? 254 then alet x := a_read_exact 4 on r as r2 in a_index 3 (lenN x) (aret (le_dec x, two16 <=? le_dec x) r2)
+    else if t =? 253 then alet x := a_read_exact 2 on r as r2 in a_index 1 (lenN x) (aret (le_dec x, 253 <=? le_dec x) r2)
+    else aret (t, true) r).
 
-(** one pass of the readBytes loop: grow b by [chunk] and fill the new part *)
+(** one pass of the readBytes loop, len(b) = have:
+      b = append(b, make([]byte, chunk)...)      chunk is a uint64; b grows to have+chunk
+      n, err := io.ReadFull(r, b[have:])
+      if err != nil { return b[:have+n], ... } *)
 Definition a_read_into (have chunk : N) : aparser bytes := fun bs =>
-  if lenN bs <? chunk then AErr (lenN bs) (grow_cost have chunk + err_cost)
-  else AOk (firstn (N.to_nat chunk) bs) chunk (skipn (N.to_nat chunk) bs) (grow_cost have chunk).
+  a_int_of_u64 chunk
+  (acharge (grow_cost have chunk)
+  (a_slice have (have + chunk) (have + chunk)
+  (if lenN bs <? chunk then a_slice 0 (have + lenN bs) (have + chunk) (AErr (lenN bs) err_cost)
+   else AOk (firstn (N.to_nat chunk) bs) chunk (skipn (N.to_nat chunk) bs) 0))).
 
 (** the loop of readBytes, entered with len(b) < l; recursion on the remaining input *)
 Fixpoint a_read_chunks (fuel : nat) (l : N) (acc : bytes) : aparser bytes := fun bs =>
@@ -117,9 +173,9 @@ Fixpoint a_read_chunks (fuel : nat) (l : N) (acc : bytes) : aparser bytes := fun
         if lenN acc' <? l then a_read_chunks f l acc' r else aret acc' r
   end.
 
-(** readBytes(r, l) *)
+(** readBytes(r, l); [l] is a uint64 and [make([]byte, l)] converts it *)
 Definition a_read_bytes (l : N) : aparser bytes := fun bs =>
-  if l <=? chunk_size then a_read_exact (N.to_nat l) bs
+  if l <=? chunk_size then a_int_of_u64 l (a_read_exact (N.to_nat l) bs)
   else a_read_chunks (S (length bs)) l [] bs.
 
 (** varint length, then readBytes *)
@@ -133,63 +189,72 @@ Definition a_read_input (ext : bool) : aparser (input * bool) := fun bs =>
   alet vout := a_read_exact 4 on r1 as r2 in
   alet sm := a_read_script on r2 as r3 in
   alet sq := a_read_exact 4 on r3 as r4 in
-  (* ReverseBytes(previousTxID), bscript.NewFromBytes(script) *)
+  (* ReverseBytes(previousTxID), Uint32(prevIndex), bscript.NewFromBytes(script), Uint32(sequence) *)
   acharge (32 + script_hdr)
+  (a_index 3 (lenN vout) (a_index 3 (lenN sq)
   (if ext then
     alet sats := a_read_exact 8 on r4 as r5 in
     alet pm := a_read_script on r5 as r6 in
-    (* prevTxLockingScript = *NewFromBytes(script); NewFromBytes(prevTxLockingScript) *)
+    (* prevTxLockingScript = *NewFromBytes(script); Uint64(prevSatoshis); NewFromBytes(prevTxLockingScript) *)
     acharge (2 * script_hdr)
-    (aret (mkInput (rev txidw) (le_dec vout) (fst sm) (le_dec sq) (le_dec sats) (Some (fst pm)),
-          snd sm && snd pm)%bool r6)
-  else aret (mkInput (rev txidw) (le_dec vout) (fst sm) (le_dec sq) 0 None, snd sm) r4).
+    (a_index 7 (lenN sats) (aret (mkInput (rev txidw) (le_dec vout) (fst sm) (le_dec sq) (le_dec sats) (Some (fst pm)),
+          snd sm && snd pm)%bool r6))
+  else aret (mkInput (rev txidw) (le_dec vout) (fst sm) (le_dec sq) 0 None, snd sm) r4))).
 
 (** ** Output.ReadFrom *)
 Definition a_read_output : aparser (output * bool) := fun bs =>
   alet sats := a_read_exact 8 on bs as r1 in
   alet sm := a_read_script on r1 as r2 in
-  acharge script_hdr (aret (mkOutput (le_dec sats) (fst sm), snd sm) r2).
+  (* Uint64(satoshis), bscript.NewFromBytes(script) *)
+  a_index 7 (lenN sats) (acharge script_hdr (aret (mkOutput (le_dec sats) (fst sm), snd sm) r2)).
 
-(** for i := 0; i < count; i++ { x := new(T); x.ReadFrom(r); xs = append(xs, x) } *)
-Fixpoint a_read_many {A} (fuel : nat) (item_cost : N) (p : aparser (A * bool)) (count : N)
+(** for i := 0; i < count; i++ { x := new(T); x.ReadFrom(r); xs = append(xs, x) }
+    [done] is len(xs): what the append has to find room for *)
+Fixpoint a_read_many {A} (fuel : nat) (item_cost : N) (p : aparser (A * bool)) (count done : N)
     : aparser (list A * bool) := fun bs =>
   if count =? 0 then aret ([], true) bs else
   match fuel with
   | O => AFuel
   | S f =>
       alet xm := (fun b => acharge item_cost (p b)) on bs as r in
-      alet rest := a_read_many f item_cost p (count - 1) on r as r2 in
-      aret (fst xm :: fst rest, snd xm && snd rest)%bool r2
+      a_request (slice_grow done)
+      (alet rest := a_read_many f item_cost p (count - 1) (done + 1) on r as r2 in
+       aret (fst xm :: fst rest, snd xm && snd rest)%bool r2)
   end.
 
 (** ** Tx.ReadFrom *)
 Definition a_read_tx_body (fuel : nat) (ver : bytes) (ext : bool) (icount : N) (ocount_known : option N)
     (m0 : bool) : aparser parsed := fun r =>
-  alet ins := a_read_many fuel (input_struct + append_cost) (a_read_input ext) icount on r as ra in
+  alet ins := a_read_many fuel (input_struct + append_cost) (a_read_input ext) icount 0 on r as ra in
   alet oc := (match ocount_known with
               | Some c => aret (c, true)
               | None => a_read_varint end) on ra as rb in
-  alet outs := a_read_many fuel (output_struct + append_cost) a_read_output (fst oc) on rb as rc in
+  alet outs := a_read_many fuel (output_struct + append_cost) a_read_output (fst oc) 0 on rb as rc in
   alet lt := a_read_full 4 on rc as rd in
-  aret (mkParsed (mkTx (le_dec ver) (fst ins) (fst outs) (le_dec lt)) ext
-          (m0 && snd ins && snd oc && snd outs)%bool) rd.
+  (* binary.LittleEndian.Uint32(locktime) *)
+  a_index 3 (lenN lt) (aret (mkParsed (mkTx (le_dec ver) (fst ins) (fst outs) (le_dec lt)) ext
+          (m0 && snd ins && snd oc && snd outs)%bool) rd).
 
 Definition a_read_tx : aparser parsed := fun bs =>
   let fuel := S (length bs) in
   alet ver := a_read_exact 4 on bs as r1 in
-  alet ic := a_read_varint on r1 as r2 in
+  (* binary.LittleEndian.Uint32(version) *)
+  a_index 3 (lenN ver)
+  (alet ic := a_read_varint on r1 as r2 in
   (* locktime := make([]byte, 4) *)
   acharge (msize 4)
   (if fst ic =? 0 then
     alet oc := a_read_varint on r2 as r3 in
     if fst oc =? 0 then
       alet lt := a_read_full 4 on r3 as r4 in
-      if be_dec lt =? 239 then
+      (* binary.BigEndian.Uint32(locktime) *)
+      a_index 3 (lenN lt)
+      (if be_dec lt =? 239 then
         alet ic2 := a_read_varint on r4 as r5 in
         a_read_tx_body fuel ver true (fst ic2) None (snd ic && snd oc && snd ic2)%bool r5
-      else aret (mkParsed (mkTx (le_dec ver) [] [] (le_dec lt)) false (snd ic && snd oc)%bool) r4
+      else aret (mkParsed (mkTx (le_dec ver) [] [] (le_dec lt)) false (snd ic && snd oc)%bool) r4)
     else a_read_tx_body fuel ver false 0 (Some (fst oc)) (snd ic && snd oc)%bool r3
-  else a_read_tx_body fuel ver false (fst ic) None (snd ic) r2).
+  else a_read_tx_body fuel ver false (fst ic) None (snd ic) r2)).
 
 (** NewTxFromStream / NewTxFromBytes: tx := Tx{} (escapes), bytes.NewReader(b) *)
 Definition a_tx_from_stream : aparser parsed := fun bs =>
@@ -202,10 +267,14 @@ Definition a_read_txs : aparser (list parsed * bool) := fun bs =>
               (fun b => match a_read_tx b with
                         | AOk p n rest al => AOk (p, p_min p) n rest al
                         | AErr n al => AErr n al
-                        | AFuel => AFuel end) (fst c) on r as r2 in
+                        | AFuel => AFuel
+                        | APanic => APanic end) (fst c) 0 on r as r2 in
   aret (fst l, snd c && snd l)%bool r2.
 
 (** ** the bound the theorems and the harness talk about *)
 Definition alloc_c : N := 32.
 Definition alloc_k : N := 16384.
 Definition alloc_bound (len : N) : N := alloc_c * len + alloc_k.
+
+(** the no-panic theorems are for inputs shorter than this (4 TiB) *)
+Definition input_limit : N := 2 ^ 42.
